@@ -953,6 +953,7 @@ Definition fuses (a b : tok) : bool :=
   | _, TStr _ | _, TBytes _ => wordlike a          (* r'..' / b'..' prefixes, $tag$ *)
   | TStr _, _ | TBytes _, _ => false
   | TSym x, _ => (wordlike a && wordlike b) || (N.eqb x S_DOT && match b with TNum _ _ => true | _ => false end)
+  | TNum _ _, TSym y => N.eqb y S_DOT || N.eqb y S_DOTBW || (wordlike a && wordlike b)     (* `1.` / `1.<` *)
   | _, _ => wordlike a && wordlike b
   end.
 
